@@ -304,6 +304,53 @@ def real_bfs(cl, w, goals, budget=12000):
     return False
 
 
+def real_search_all_outcomes(cl, w, goals, budget=30000):
+    """exhaustive search over the real functional_step for families with random dynamics: every action from every
+    reachable state under EVERY outcome of every draw.  The outcome tree is discovered from the real code (the scripted
+    generator logs the domain of each draw; untried outcomes are queued as longer scripts), so no model of the dynamics
+    is involved.  True (a winning history exists) / False (none exists) / None (budget, or a draw that cannot be scripted)"""
+    s0 = mk_state(w)
+    seen = {state_key(s0)}
+    dq = deque([s0])
+    n = 0
+    while dq:
+        s = dq.popleft()
+        for a in cl.actions:
+            scripts = [[]]
+            while scripts:
+                script = scripts.pop()
+                n += 1
+                if n > budget:
+                    return None
+                g = ScriptedRng(0, 'first', script=script)
+                inject_rng(cl.env, g)
+                r = sut(cl.env.functional_step, s, action_of(a))
+                draws = []
+                for (m, dom, out) in g.log:
+                    if m == 'choice':
+                        draws.append((int(dom), int(out)))
+                    elif m == 'integers':
+                        draws.append((int(dom[1] - dom[0]), int(out - dom[0])))
+                    else:
+                        return None  # floats, samples, permutations: not enumerated here
+                for i in range(len(script), len(draws)):
+                    for alt in range(1, draws[i][0]):
+                        scripts.append([d[1] for d in draws[:i]] + [alt])
+                if isinstance(r, Raised):
+                    continue
+                s1, reward, done = r
+                k = state_key(s1)
+                if k in seen:
+                    continue
+                seen.add(k)
+                if done:
+                    if (s1.agent.position.y, s1.agent.position.x) in goals and reward > 0:
+                        return True
+                    continue
+                dq.append(s1)
+    return False
+
+
 def execute(record, ctx):
     runner = Sim({'clients': [], 'ops': [], 'property': PROP}, ctx, [])
     sample = None
@@ -356,7 +403,17 @@ def execute(record, ctx):
             elif static_path(base, goals, False) is None:
                 ctx.violate('winnable', 'unwinnable_initial_state', 'reset:' + name, 'walled_off', i, f'{params} ({mode}, seed {seed}): no exit is connected to the agent even without the obstacles; agent {w["agent"][:3]}')
             else:
-                ctx.undecided['no_plan_stochastic_family'] += 1
+                # small instances are decided by exhaustive search over the real step function under every outcome
+                verdict = real_search_all_outcomes(cl, w, goals) if w['h'] * w['w'] <= 36 and len(M.obstacles(w)) <= 3 else None
+                if verdict is True:
+                    ctx.count('won_by_real_search:' + name)
+                    ctx.probe('stochastic_family_decided_by_exhaustive_search')
+                elif verdict is False:
+                    ctx.probe('stochastic_family_decided_by_exhaustive_search')
+                    ctx.violate('winnable', 'unwinnable_initial_state', 'reset:' + name, f'every_outcome_sequence_loses_{w["h"]}x{w["w"]}_grid_{len(M.obstacles(w))}_obstacles', i,
+                                f'{params} ({mode}, seed {seed}): {reason}; exhaustive search over the real step function under every outcome of every draw finds no winning history; agent {w["agent"][:3]}')
+                else:
+                    ctx.undecided['no_plan_stochastic_family'] += 1
             continue
         inject_rng(cl.env, ScriptedRng(0, 'first'))
         verdict = real_bfs(cl, w, goals)
